@@ -220,8 +220,21 @@ def infoLetter (k : Bytes) : String :=
   | "Title" => "T" | "Author" => "A" | "Subject" => "S" | "Keywords" => "K"
   | "Creator" => "C" | "Producer" => "P" | s => s
 
+/-- `PdfString::to_text` (no BOM): every byte through `winansi_decode_char`, printed as UTF-8;
+    bytes 0x80–0x9F (the Windows-1252 specials) are outside what the generator produces -/
+def toTextUtf8 : Bytes → Option Bytes
+  | [] => some []
+  | b :: r =>
+    if b < 128 then (toTextUtf8 r).map (b :: ·)
+    else if 160 ≤ b && b < 192 then (toTextUtf8 r).map (194 :: b :: ·)
+    else if 192 ≤ b && b < 256 then (toTextUtf8 r).map (195 :: (b - 64) :: ·)
+    else none
+
 def showInfo (l : List (Bytes × Bytes)) : String :=
-  if l.isEmpty then "-" else ";".intercalate (l.map fun e => infoLetter e.1 ++ ":" ++ hx e.2)
+  if l.isEmpty then "-" else ";".intercalate (l.map fun e =>
+    infoLetter e.1 ++ ":" ++ (match toTextUtf8 e.2 with
+      | some t => hx t
+      | none => "unmodelled"))
 
 /-! ## the independent reading, printed the same way -/
 
@@ -390,8 +403,9 @@ def comparePages (who : String) (d : Doc) (exp : List String) (got : List String
             if ef.getD 0 "" != gf.getD 0 "" then "mediabox"
             else if ef.getD 1 "" != gf.getD 1 "" then "rotation"
             else if ef.getD 2 "" != gf.getD 2 "" then
-              -- the one known deviation: the emitted order (image drawn while text is pending)
-              if gf.getD 2 "" == showOpsWith showXOp (emitOps p) then "ops-reordered-draw-image-before-pending-text"
+              -- the regression of C02-F3: the order emitted before the repair (image drawn while
+              -- text is pending)
+              if gf.getD 2 "" == showOpsWith showXOp (emitOpsOld p) then "ops-reordered-draw-image-before-pending-text"
               else "ops-differ"
             else "images"
           some (who ++ ":p" ++ toString i ++ ":" ++ part)
